@@ -68,6 +68,12 @@ def base_coverage(run, r, au, extra_rule=''):
         validator_lookaround_uncertified=certs.get('LOOK', 0),
         validator_unknown=certs.get('UNKNOWN', 0), validator_fail=certs.get('FAIL', 0),
         checker_cmd=au['checker_cmd'], trusted_base=TRUSTED_BASE,
+        graph_passes_predicted=dict(
+            same=sum(1 for i in r['accepted'] if lean.get('%d PASSES' % i, '').startswith('SAME')),
+            differ=[dict(origin=r['corpus'][i].origin, answer=lean.get('%d PASSES' % i, '')[:300]) for i in r['accepted']
+                    if lean.get('%d PASSES' % i, '').startswith('DIFF')][:5],
+            note='Passes.passes (Lean model of early-accept detection, late-accept removal, dead-end pruning and state de-duplication in Graph::new) applied to the '
+                 'hook\'s dump of the graph before the passes, compared state by state with the final graph; a difference alone is not reported (the certificate on the final graph decides)'),
         definitions=len(r['corpus']), definitions_accepted=len(r['accepted']),
         configs=list(r['zoo_out'].keys()), graph_states=nstates,
         stage_cached=r.get('cached', False), stage_key=r['key'],
